@@ -170,13 +170,13 @@ func checkC16(ctx *Ctx, r *Report) {
 			if okGuard {
 				// the single guard is a kind test naming struct and ref on a ResolveToType result
 				txt := exprString(guards[0])
-				okGuard = strings.Contains(txt, "KindStruct") && strings.Contains(txt, "KindRef") || strings.Contains(txt, "IsStructOrRef")
+				okGuard = strings.Contains(txt, "KindStruct") && !strings.Contains(txt, "||") && !strings.Contains(txt, "&&") || strings.Contains(txt, "IsStructOrRef") || strings.HasSuffix(txt, ".IsStruct()") && strings.HasPrefix(txt, "!")
 			}
 			var gtxt []string
 			for _, g := range guards {
 				gtxt = append(gtxt, exprString(g))
 			}
-			r.Check(okGuard, "derive/builder-iff-struct", "BuilderGenerator.FromAST guard", app.Pos(), "a builder is derived exactly when the resolved type is a struct (or an unresolved reference)",
+			r.Check(okGuard, "derive/builder-iff-struct", "BuilderGenerator.FromAST guard", app.Pos(), "a builder is derived exactly when the resolved type is a struct",
 				"builders are derived under ["+strings.Join(gtxt, "; ")+"] instead of the single struct-or-reference test on the resolved type: some struct objects get no builder (or non-structs get one)")
 			// every object of every schema: the append sits in an Iterate callback (or range) over Objects inside a range over schemas
 			inObjects, inSchemas := false, false
